@@ -138,7 +138,8 @@ def units(tier, seed):
         us.append({"kind": "pop", "pop": pop, "evaluator": "rpar", "calls": 2})
     for mode in ("single-max", "single-min", "multi-FT", "multi-boolT", "multi-agg"):
         us.append({"kind": "aggregate", "mode": mode})
-    for step in ("default", "elitism-heavy", "selection-only", "mutation05"):
+    us.append({"kind": "trackers"})
+    for step in ("default", "elitism-heavy", "selection-only", "mutation05", "mutation-then-tournament", "novelty-then-tournament"):
         for ev in ("seq", "vpar"):
             us.append({"kind": "gp", "step": step, "evaluator": ev, "max_dev": 1 if tier == "quick" else 2,
                        "max_execs": 300 if tier == "quick" else 5000})
@@ -356,11 +357,13 @@ def run_gp(unit) -> UnitResult:
                 os.remove(path)
             problem = SingleObjectiveProblem(make_ff(path))  # file-backed log: also written by dill copies
             seen = []
+            seen_objs = []
 
             base = SequentialEvaluator if unit["evaluator"] == "seq" else ParallelEvaluator
 
             class Logging(base):  # type: ignore
                 def eval_single(self, problem, individual):
+                    seen_objs.append(individual)  # keep the object alive: ids of collected objects are reused
                     seen.append(id(individual))
                     return super().eval_single(problem, individual)
 
@@ -374,6 +377,8 @@ def run_gp(unit) -> UnitResult:
                 "elitism-heavy": ParallelStep([ElitismStep(), NoveltyStep()], [3, 1]),
                 "selection-only": TournamentSelection(2, with_replacement=True),
                 "mutation05": SequenceStep(TournamentSelection(2, with_replacement=True), GenericMutationStep(0.5)),
+                "mutation-then-tournament": SequenceStep(GenericMutationStep(1), TournamentSelection(2, with_replacement=True)),
+                "novelty-then-tournament": SequenceStep(NoveltyStep(), TournamentSelection(3, with_replacement=True)),
             }[unit["step"]]
             gp = GeneticProgramming(problem, EvaluationBudget(9), rep, random=src, tracker=tracker, population_size=4, step=step)
             keep = []
@@ -436,8 +441,44 @@ def run_gp(unit) -> UnitResult:
     return r
 
 
+def run_trackers(unit) -> UnitResult:
+    """Trackers built the short way (no explicit evaluator) count their own evaluations only."""
+    from geneticengine.evaluation.tracker import MultiObjectiveProgressTracker
+
+    r = UnitResult()
+    rep = StubRepresentation(3)
+    for kind in ("single", "multi"):
+        counts = []
+        for k in range(3):
+            calls = []
+
+            def ff(p):
+                calls.append(p.v)
+                return TABLE[p.v % 4] if kind == "single" else [TABLE[p.v % 4], 1.0]
+
+            if kind == "single":
+                problem = SingleObjectiveProblem(ff)
+                tr = SingleObjectiveProgressTracker(problem)
+            else:
+                problem = MultiObjectiveProblem([False, True], ff)
+                tr = MultiObjectiveProgressTracker(problem)
+            inds = [Individual(rep._new(i % 4), rep) for i in range(2 + k)]
+            tr.evaluate(inds)
+            r.executions += len(inds)
+            r.nontrivial += 1
+            r.count("histories")
+            if tr.get_number_evaluations() != len(calls):
+                r.add_violation(Violation(PROP, "ProgressTracker.get_number_evaluations", "counter-differs-from-invocations",
+                                          {"evaluator": "default-of-tracker", "tracker_number": min(k, 1)}, {"unit": unit, "kind": kind, "tracker": k},
+                                          f"{kind}-objective tracker number {k + 1} built without an evaluator: counter {tr.get_number_evaluations()}, "
+                                          f"its fitness function was invoked {len(calls)} times"))
+    r.states = 6
+    r.samples.append({"default_trackers": 6})
+    return r
+
+
 def run_unit(unit) -> UnitResult:
-    return {"pop": run_pop, "aggregate": run_aggregate, "gp": run_gp}[unit["kind"]](unit)
+    return {"pop": run_pop, "aggregate": run_aggregate, "gp": run_gp, "trackers": run_trackers}[unit["kind"]](unit)
 
 
 def finalize(cr):
